@@ -552,6 +552,31 @@ fn locaddr_family(ctx: &Ctx) -> u64 {
             o => ctx.fail(json!({"kind": "locaddr_program_failed"}), format!("{src}: {}", o.brief()), case),
         }
     }
+    // the frame of a procedure ends at its declared number of locals: an index equal to (or above) that
+    // number would address the frame of the procedure it invokes next, so it must not assemble
+    // (memory_operations.md: "i < number of locals"; the assembler checks the index)
+    for locals in [1usize, 2, 4] {
+        for instr in ["loc_load", "loc_store", "loc_loadw", "loc_storew", "locaddr"] {
+            for idx in [locals, locals + 1] {
+                let body = match instr {
+                    "loc_load" | "locaddr" => format!("{instr}.{idx} drop"),
+                    "loc_store" => format!("push.42 {instr}.{idx}"),
+                    "loc_loadw" => format!("padw {instr}.{idx} dropw"),
+                    _ => format!("push.1.2.3.4 {instr}.{idx} dropw"),
+                };
+                let src = format!("proc.inner.1 push.7 loc_store.0 loc_load.0 drop end proc.outer.{locals} {body} exec.inner end begin exec.outer end");
+                let out = run_source(&assembly::Assembler::default(), &src, &[], &[]);
+                n += 1;
+                if !matches!(out, Outcome::AsmErr(_)) {
+                    ctx.fail(
+                        json!({"kind": "local_index_beyond_the_frame_accepted", "instr": instr}),
+                        format!("{src}: {}", out.brief()),
+                        json!({"locaddr_src": src}),
+                    );
+                }
+            }
+        }
+    }
     n
 }
 
